@@ -967,7 +967,10 @@ func (vx *Vaxis) handleSequence(seq ansi.Sequence) {
 					vx.PostEventBlocking(textAreaChar{})
 					return
 				}
-				vx.chSizeDone <- true
+				select {
+				case vx.chSizeDone <- true:
+				default:
+				}
 			case 48:
 				// CSI <type> ; <height> ; <width> ; <height_pix> ; <width_pix> t
 				switch len(seq.Parameters) {
@@ -1069,21 +1072,32 @@ func (vx *Vaxis) handleSequence(seq ansi.Sequence) {
 			// content. In this case, we don't want to fill the channel buffer
 			// as no one will clear it.
 			if vx.CanReportColor() {
-				vx.chColor <- string(seq.Payload)
+				// Never block: nobody may be waiting for this report
+				// (any more)
+				select {
+				case vx.chColor <- string(seq.Payload):
+				default:
+				}
 			}
 			vx.PostEventBlocking(capabilityOsc4{})
 		}
 		if strings.HasPrefix(string(seq.Payload), "10") {
 			// Similar to OSC 4
 			if vx.CanReportForegroundColor() {
-				vx.chFg <- string(seq.Payload)
+				select {
+				case vx.chFg <- string(seq.Payload):
+				default:
+				}
 			}
 			vx.PostEventBlocking(capabilityOsc10{})
 		}
 		if strings.HasPrefix(string(seq.Payload), "11") {
 			// Similar to OSC 4
 			if vx.CanReportBackgroundColor() {
-				vx.chBg <- string(seq.Payload)
+				select {
+				case vx.chBg <- string(seq.Payload):
+				default:
+				}
 			}
 			vx.PostEventBlocking(capabilityOsc11{})
 		}
@@ -1132,6 +1146,11 @@ func (vx *Vaxis) QueryColor(c Color) Color {
 	if len(p) != 1 {
 		return Color(0)
 	}
+	// Discard a report nobody asked for
+	select {
+	case <-vx.chColor:
+	default:
+	}
 	vx.tw.WriteStringLocked(tparm(osc4, p[0]))
 	resp := <-vx.chColor
 	var r, g, b int
@@ -1156,6 +1175,11 @@ func (vx *Vaxis) QueryForeground() Color {
 	if !vx.CanReportForegroundColor() {
 		return Color(0)
 	}
+	// Discard a report nobody asked for
+	select {
+	case <-vx.chFg:
+	default:
+	}
 	vx.tw.WriteStringLocked(osc10)
 	resp := <-vx.chFg
 	var r, g, b int
@@ -1175,6 +1199,11 @@ func (vx *Vaxis) QueryForeground() Color {
 func (vx *Vaxis) QueryBackground() Color {
 	if !vx.CanReportBackgroundColor() {
 		return Color(0)
+	}
+	// Discard a report nobody asked for
+	select {
+	case <-vx.chBg:
+	default:
 	}
 	vx.tw.WriteStringLocked(osc11)
 	resp := <-vx.chBg
